@@ -1,1 +1,1271 @@
-//! (stub)
+//! Hand assemblers (with field maps) and seeded generators for the index family (C17):
+//! `.debug_cu_index` / `.debug_tu_index` (versions 2 and 5), `.debug_names`,
+//! `.debug_aranges`, `.debug_pubnames` / `.debug_pubtypes`, `.debug_str_offsets`,
+//! `.debug_addr`, and small split-DWARF objects that are packaged into a `.dwp`.
+//!
+//! Nothing in here calls gimli: the bytes come from `crate::asm::Asm`, the models from
+//! `crate::model::index`.
+
+use crate::asm::{uleb_bytes, Asm, Enc, FieldKind};
+use crate::model::index::*;
+use crate::rt::Rng;
+use std::collections::{BTreeMap, BTreeSet};
+
+// ------------------------------------------------------------------ package index
+
+/// Encode a unit index exactly as the model says (DWARF 5 §7.3.5.3).
+pub fn asm_unit_index(m: &UnitIndexM, le: bool) -> Asm {
+    let mut a = Asm::new(le);
+    if m.version == 2 {
+        a.f_uint(FieldKind::Version, "version", 4, 2);
+    } else {
+        a.f_uint(FieldKind::Version, "version", 2, m.version as u64);
+        a.f_uint(FieldKind::Other, "padding", 2, 0);
+    }
+    a.f_uint(FieldKind::Count, "section_count", 4, m.columns.len() as u64);
+    a.f_uint(FieldKind::Count, "unit_count", 4, m.rows.len() as u64);
+    a.f_uint(FieldKind::Count, "slot_count", 4, m.slots.len() as u64);
+    for s in &m.slots {
+        a.f_uint(FieldKind::Data, "hash_id", 8, s.0);
+    }
+    for s in &m.slots {
+        a.f_uint(FieldKind::Index, "hash_row", 4, s.1 as u64);
+    }
+    for c in &m.columns {
+        a.f_uint(FieldKind::Other, "section_id", 4, c.code(m.version).unwrap_or(0xdead) as u64);
+    }
+    for r in &m.rows {
+        for (o, _) in r {
+            a.f_uint(FieldKind::Offset, "offset", 4, *o as u64);
+        }
+    }
+    for r in &m.rows {
+        for (_, s) in r {
+            a.f_uint(FieldKind::Size, "size", 4, *s as u64);
+        }
+    }
+    a
+}
+
+pub const KEY_PATTERNS: usize = 7;
+pub const KEY_PATTERN_NAMES: [&str; KEY_PATTERNS] =
+    ["random", "same_primary", "same_both", "clustered_step1", "even_step", "small_ints", "high_only"];
+
+fn bits_outside(r: &mut Rng, mask: u64) -> u64 {
+    // random bits that take part in neither hash
+    let keep = !(mask | (mask << 32));
+    r.next() & keep
+}
+
+/// `n` distinct non-zero keys for a table of `slots` slots following `pattern`.
+pub fn gen_keys(r: &mut Rng, slots: usize, n: usize, pattern: usize) -> Vec<u64> {
+    let mask = (slots as u64).wrapping_sub(1);
+    let mut set: BTreeSet<u64> = BTreeSet::new();
+    let mut out = vec![];
+    let p = r.next() & mask;
+    let q = r.next() & mask;
+    let mut tries = 0u64;
+    let mut k = 0u64;
+    while out.len() < n && tries < 100_000 {
+        tries += 1;
+        k += 1;
+        let key = match pattern {
+            0 => r.next(),
+            // same primary hash, any secondary
+            1 => (r.next() & !mask) | p,
+            // same primary and same secondary hash: identical probe sequences
+            2 => bits_outside(r, mask) | p | (q << 32),
+            // consecutive primary hashes, step 1: one contiguous cluster
+            3 => (bits_outside(r, mask) & !(mask << 32)) | (p.wrapping_add(k) & mask),
+            // same primary, secondary hash bits even (zero included): step relies on `| 1`
+            4 => bits_outside(r, mask) | p | (((r.next() & mask) & !1) << 32),
+            // 1, 2, 3, ... (high half zero)
+            5 => k,
+            // low half zero: primary hash 0 for every key
+            _ => (r.next() << 32) | 0,
+        };
+        if key != 0 && set.insert(key) {
+            out.push(key);
+        }
+    }
+    out
+}
+
+/// Non-zero keys that are *not* in the table, biased to collide with present ones.
+pub fn gen_absent(r: &mut Rng, m: &UnitIndexM, count: usize) -> Vec<u64> {
+    let present: BTreeSet<u64> = m.present_ids().into_iter().collect();
+    let pv: Vec<u64> = present.iter().copied().collect();
+    let mask = (m.slots.len() as u64).wrapping_sub(1);
+    let mut out = vec![];
+    let mut fixed = vec![1u64, 2, u64::MAX, 1 << 63, 1 << 32, 0xffff_ffff, mask.wrapping_add(1) | 1 << 40];
+    let mut tries = 0;
+    while out.len() < count && tries < count * 20 + 50 {
+        tries += 1;
+        let k = if let Some(f) = fixed.pop() {
+            f
+        } else if pv.is_empty() {
+            r.next()
+        } else {
+            let base = *r.pick(&pv);
+            match r.below(6) {
+                // same probe sequence as a present key
+                0 => (base & (mask | (mask << 32))) | bits_outside(r, mask),
+                // same primary hash
+                1 => (r.next() & !mask) | (base & mask),
+                // differs in one bit
+                2 => base ^ (1u64 << r.below(64)),
+                // halves swapped
+                3 => base.rotate_left(32),
+                4 => base.wrapping_add(1),
+                _ => r.next(),
+            }
+        };
+        if k != 0 && !present.contains(&k) && !out.contains(&k) {
+            out.push(k);
+        }
+    }
+    out
+}
+
+/// Build a table: `n` keys of `pattern` inserted by the standard's probing, rows shuffled.
+pub fn gen_unit_index(r: &mut Rng, version: u16, columns: Vec<SectKind>, slots: usize, n: usize, pattern: usize, extra_rows: usize) -> UnitIndexM {
+    let mut m = UnitIndexM::new(version, columns, slots);
+    let keys = gen_keys(r, slots, n, pattern);
+    let total_rows = keys.len() + extra_rows;
+    let mut row_ids: Vec<u32> = (1..=total_rows as u32).collect();
+    r.shuffle(&mut row_ids);
+    let ncol = m.columns.len();
+    let mut off: Vec<u32> = (0..ncol).map(|_| r.below(64) as u32).collect();
+    for _ in 0..total_rows {
+        let mut row = vec![];
+        for c in 0..ncol {
+            let size = match r.below(8) {
+                0 => 0,
+                1 => r.boundary_bits(32) as u32,
+                _ => 1 + r.below(200) as u32,
+            };
+            let o = if r.chance(1, 16) { r.boundary_bits(32) as u32 } else { off[c] };
+            row.push((o, size));
+            off[c] = off[c].wrapping_add(size).wrapping_add(r.below(3) as u32);
+        }
+        m.rows.push(row);
+    }
+    for (i, k) in keys.iter().enumerate() {
+        m.insert(*k, row_ids[i]);
+    }
+    m
+}
+
+// ------------------------------------------------------------------ .debug_names
+
+pub struct NamesOpts {
+    pub fmt64: bool,
+    /// 0, 1, or n
+    pub bucket_count: u32,
+    pub n_names: usize,
+    /// assign hashes from a small pool instead of hashing the names
+    pub forced_hashes: bool,
+    pub n_cu: usize,
+    pub n_local_tu: usize,
+    pub n_foreign_tu: usize,
+}
+
+const NAME_ALPHABET: &[char] = &[
+    'a', 'b', 'z', 'A', 'B', 'Z', '_', '0', '9', ':', '<', '>', ' ', '~', 'k', 'K', 's', 'S', 'i', 'I', '\u{e9}', '\u{c9}', '\u{df}',
+    '\u{130}', '\u{131}', '\u{17f}', '\u{3a3}', '\u{3c2}', '\u{3c3}', '\u{1e9e}', '\u{212a}', '\u{4e2d}', '\u{1f600}', '\u{10400}',
+];
+
+pub fn gen_name(r: &mut Rng) -> String {
+    let n = 1 + r.below(10) as usize;
+    let ascii_only = r.chance(2, 3);
+    (0..n)
+        .map(|_| if ascii_only { NAME_ALPHABET[r.usize(19)] } else { *r.pick(NAME_ALPHABET) })
+        .collect()
+}
+
+fn fits(form: u16, v: u64) -> u64 {
+    match form {
+        FORM_DATA1 | FORM_REF1 => v & 0xff,
+        FORM_DATA2 | FORM_REF2 => v & 0xffff,
+        FORM_DATA4 | FORM_REF4 => v & 0xffff_ffff,
+        _ => v,
+    }
+}
+
+fn emit_form(a: &mut Asm, form: u16, v: IdxVal) {
+    let raw = match v {
+        IdxVal::Unsigned(x) | IdxVal::Offset(x) => x,
+        IdxVal::Flag(b) => b as u64,
+    };
+    match form {
+        FORM_DATA1 | FORM_REF1 | FORM_FLAG => {
+            a.f_uint(FieldKind::Data, "idx_value", 1, raw);
+        }
+        FORM_DATA2 | FORM_REF2 => {
+            a.f_uint(FieldKind::Data, "idx_value", 2, raw);
+        }
+        FORM_DATA4 | FORM_REF4 => {
+            a.f_uint(FieldKind::Data, "idx_value", 4, raw);
+        }
+        FORM_DATA8 | FORM_REF8 => {
+            a.f_uint(FieldKind::Data, "idx_value", 8, raw);
+        }
+        FORM_UDATA | FORM_REF_UDATA => {
+            a.f_uleb(FieldKind::Uleb, "idx_value", raw);
+        }
+        _ => {} // flag_present: no bytes
+    }
+}
+
+pub const DATA_FORMS: [u16; 5] = [FORM_DATA1, FORM_DATA2, FORM_DATA4, FORM_DATA8, FORM_UDATA];
+pub const REF_FORMS: [u16; 5] = [FORM_REF1, FORM_REF2, FORM_REF4, FORM_REF8, FORM_REF_UDATA];
+
+pub fn form_name(f: u16) -> &'static str {
+    match f {
+        FORM_DATA1 => "data1",
+        FORM_DATA2 => "data2",
+        FORM_DATA4 => "data4",
+        FORM_DATA8 => "data8",
+        FORM_UDATA => "udata",
+        FORM_REF1 => "ref1",
+        FORM_REF2 => "ref2",
+        FORM_REF4 => "ref4",
+        FORM_REF8 => "ref8",
+        FORM_REF_UDATA => "ref_udata",
+        FORM_FLAG => "flag",
+        FORM_FLAG_PRESENT => "flag_present",
+        _ => "other",
+    }
+}
+
+/// Result of generating one name index: the model (offsets filled in) — bytes are appended
+/// to `sec` (the `.debug_names` section) and strings to `debug_str`.
+pub fn gen_name_index(r: &mut Rng, o: &NamesOpts, sec: &mut Asm, debug_str: &mut Vec<u8>) -> NameIndexM {
+    let mut m = NameIndexM { fmt64: o.fmt64, bucket_count: o.bucket_count, ..Default::default() };
+    let word = if o.fmt64 { 8usize } else { 4 };
+    let wmask = if o.fmt64 { u64::MAX } else { 0xffff_ffff };
+    m.offset = sec.len() as u64;
+    for _ in 0..o.n_cu {
+        m.cus.push(r.boundary() & wmask);
+    }
+    for _ in 0..o.n_local_tu {
+        m.local_tus.push(r.boundary() & wmask);
+    }
+    for _ in 0..o.n_foreign_tu {
+        m.foreign_tus.push(r.next() | 1);
+    }
+    // ---- abbreviations
+    let n_abbrev = 1 + r.usize(4);
+    let mut codes: BTreeSet<u64> = BTreeSet::new();
+    while codes.len() < n_abbrev {
+        let c = match r.below(4) {
+            0 => 1 + r.below(5),
+            1 => 1 + r.below(300),
+            2 => 1 + (r.next() >> r.below(60)),
+            _ => 0x7f + r.below(3),
+        };
+        if c != 0 {
+            codes.insert(c);
+        }
+    }
+    let mut codes: Vec<u64> = codes.into_iter().collect();
+    r.shuffle(&mut codes);
+    for (ai, code) in codes.iter().enumerate() {
+        let tag = *r.pick(&[0x2eu16, 0x34, 0x13, 0x24, 0x39, 0x04, 0x16, 0x4109, 0xffff, 1]);
+        let mut attrs: Vec<(u16, u16)> = vec![];
+        if r.chance(3, 4) {
+            attrs.push((DW_IDX_DIE_OFFSET, *r.pick(&REF_FORMS)));
+        }
+        if r.chance(1, 2) {
+            attrs.push((DW_IDX_COMPILE_UNIT, *r.pick(&DATA_FORMS)));
+        }
+        if r.chance(1, 3) {
+            attrs.push((DW_IDX_TYPE_UNIT, *r.pick(&DATA_FORMS)));
+        }
+        // the first abbreviation never has a reference parent so that the first entry of the
+        // pool can always be encoded
+        if r.chance(2, 3) {
+            if ai == 0 || r.chance(1, 3) {
+                attrs.push((DW_IDX_PARENT, FORM_FLAG_PRESENT));
+            } else {
+                attrs.push((DW_IDX_PARENT, *r.pick(&REF_FORMS)));
+            }
+        }
+        if r.chance(1, 4) {
+            attrs.push((DW_IDX_TYPE_HASH, FORM_DATA8));
+        }
+        if r.chance(1, 5) {
+            attrs.push((0x2000 + r.below(0x1fff) as u16, *r.pick(&[FORM_DATA1, FORM_UDATA, FORM_FLAG, FORM_FLAG_PRESENT, FORM_REF4])));
+        }
+        r.shuffle(&mut attrs);
+        m.abbrevs.push(NameAbbrevM { code: *code, tag, attrs });
+    }
+    let mut abb = Asm::new(sec.le);
+    for ab in &m.abbrevs {
+        abb.f_uleb(FieldKind::Uleb, "abbrev_code", ab.code);
+        abb.f_uleb(FieldKind::Uleb, "abbrev_tag", ab.tag as u64);
+        for (i, f) in &ab.attrs {
+            abb.f_uleb(FieldKind::Uleb, "abbrev_idx", *i as u64);
+            abb.f_uleb(FieldKind::Form, "abbrev_form", *f as u64);
+        }
+        abb.u8(0).u8(0);
+    }
+    abb.u8(0);
+    // optional zero padding after the terminator (counts towards abbrev_table_size)
+    if r.chance(1, 3) {
+        abb.pad_to(4, 0);
+    }
+    m.abbrev_table_size = abb.len() as u32;
+
+    // ---- names + hashes
+    let mut seen: BTreeSet<String> = BTreeSet::new();
+    let pool: Vec<u32> = (0..3).map(|_| r.next() as u32).collect();
+    for _ in 0..o.n_names {
+        let mut s = gen_name(r);
+        let mut t = 0;
+        while !seen.insert(s.clone()) && t < 20 {
+            s = gen_name(r);
+            t += 1;
+        }
+        let hash = if o.forced_hashes {
+            match r.below(4) {
+                // identical hash values
+                0 | 1 => *r.pick(&pool),
+                // same bucket, different hash
+                2 if o.bucket_count > 0 => pool[0].wrapping_add(o.bucket_count.wrapping_mul(r.below(50) as u32)),
+                _ => r.next() as u32,
+            }
+        } else {
+            ref_case_folding_djb_hash(&s)
+        };
+        m.names.push(NameM { name: s.into_bytes(), hash, str_off: 0, entry_off: 0, entries: vec![] });
+    }
+    if o.bucket_count > 0 {
+        let b = o.bucket_count;
+        m.names.sort_by_key(|n| n.hash % b); // stable: keeps generation order inside a bucket
+        m.buckets = vec![0; b as usize];
+        for (i, n) in m.names.iter().enumerate() {
+            let k = (n.hash % b) as usize;
+            if m.buckets[k] == 0 {
+                m.buckets[k] = i as u32 + 1;
+            }
+        }
+    }
+    // strings: some names share the string table with junk in front
+    if debug_str.is_empty() {
+        debug_str.push(0);
+    }
+    for n in m.names.iter_mut() {
+        n.str_off = debug_str.len() as u64;
+        debug_str.extend_from_slice(&n.name);
+        debug_str.push(0);
+    }
+    // ---- entry pool
+    let mut pool_a = Asm::new(sec.le);
+    let mut emitted: Vec<u64> = vec![]; // pool offsets of entries emitted so far
+    let n_tu_total = (o.n_local_tu + o.n_foreign_tu) as u64;
+    let last = m.names.len().wrapping_sub(1);
+    for ni in 0..m.names.len() {
+        m.names[ni].entry_off = pool_a.len() as u64;
+        let n_entries = 1 + r.usize(3);
+        for _ in 0..n_entries {
+            let ab = if emitted.is_empty() { m.abbrevs[0].clone() } else { r.pick(&m.abbrevs).clone() };
+            let off = pool_a.len() as u64;
+            pool_a.f_uleb(FieldKind::Uleb, "entry_abbrev", ab.code);
+            let mut attrs = vec![];
+            for (idx, form) in &ab.attrs {
+                let v = match (*idx, *form) {
+                    (_, FORM_FLAG_PRESENT) => IdxVal::Flag(true),
+                    (_, FORM_FLAG) => IdxVal::Flag(r.bool()),
+                    (DW_IDX_COMPILE_UNIT, f) => {
+                        let x = if o.n_cu > 0 && r.chance(7, 8) { r.below(o.n_cu as u64) } else { r.boundary() };
+                        IdxVal::Unsigned(fits(f, x))
+                    }
+                    (DW_IDX_TYPE_UNIT, f) => {
+                        let x = if n_tu_total > 0 && r.chance(7, 8) { r.below(n_tu_total) } else { r.boundary() };
+                        IdxVal::Unsigned(fits(f, x))
+                    }
+                    (DW_IDX_PARENT, f) => {
+                        let x = if emitted.is_empty() { 0 } else { *r.pick(&emitted) };
+                        // a parent offset that does not fit the form is replaced by the
+                        // first entry (offset 0 always fits)
+                        let x = if fits(f, x) == x { x } else { 0 };
+                        IdxVal::Offset(x)
+                    }
+                    (DW_IDX_TYPE_HASH, _) => IdxVal::Unsigned(r.next()),
+                    (_, f) if REF_FORMS.contains(&f) => {
+                        let x = fits(f, r.boundary());
+                        // offsets must fit usize on the reading side: always true on 64-bit
+                        IdxVal::Offset(x)
+                    }
+                    (_, f) => IdxVal::Unsigned(fits(f, r.boundary())),
+                };
+                emit_form(&mut pool_a, *form, v);
+                attrs.push((*idx, *form, v));
+            }
+            emitted.push(off);
+            m.names[ni].entries.push(NameEntryM { pool_off: off, code: ab.code, tag: ab.tag, attrs });
+        }
+        // series terminator; the very last one may be missing (end of pool ends the series)
+        if !(ni == last && r.chance(1, 4)) {
+            pool_a.u8(0);
+        }
+    }
+    // ---- augmentation
+    m.augmentation = match r.below(6) {
+        0 => vec![],
+        1 => b"LLVM0700".to_vec(),
+        2 => b"GV\0\0".to_vec(),
+        3 => {
+            let k = 4 * (1 + r.usize(3));
+            r.bytes(k)
+        }
+        // size not a multiple of four: padded to four (A.8)
+        4 => b"abcde".to_vec(),
+        _ => b"x".to_vec(),
+    };
+    // ---- layout
+    let lm = sec.begin_length(o.fmt64);
+    sec.f_uint(FieldKind::Version, "version", 2, 5);
+    sec.f_uint(FieldKind::Other, "padding", 2, 0);
+    sec.f_uint(FieldKind::Count, "comp_unit_count", 4, m.cus.len() as u64);
+    sec.f_uint(FieldKind::Count, "local_type_unit_count", 4, m.local_tus.len() as u64);
+    sec.f_uint(FieldKind::Count, "foreign_type_unit_count", 4, m.foreign_tus.len() as u64);
+    sec.f_uint(FieldKind::Count, "bucket_count", 4, m.bucket_count as u64);
+    sec.f_uint(FieldKind::Count, "name_count", 4, m.names.len() as u64);
+    sec.f_uint(FieldKind::Size, "abbrev_table_size", 4, m.abbrev_table_size as u64);
+    sec.f_uint(FieldKind::Size, "augmentation_string_size", 4, m.augmentation.len() as u64);
+    sec.f_bytes(FieldKind::Str, "augmentation_string", &m.augmentation.clone());
+    let pad = (4 - (m.augmentation.len() & 3)) & 3;
+    for _ in 0..pad {
+        sec.u8(0);
+    }
+    for c in &m.cus {
+        sec.f_uint(FieldKind::Offset, "cu_offset", word, *c);
+    }
+    for c in &m.local_tus {
+        sec.f_uint(FieldKind::Offset, "local_tu_offset", word, *c);
+    }
+    for c in &m.foreign_tus {
+        sec.f_uint(FieldKind::Data, "foreign_tu_signature", 8, *c);
+    }
+    for b in &m.buckets {
+        sec.f_uint(FieldKind::Index, "bucket", 4, *b as u64);
+    }
+    if m.bucket_count > 0 {
+        for n in &m.names {
+            sec.f_uint(FieldKind::Data, "hash", 4, n.hash as u64);
+        }
+    }
+    for n in &m.names {
+        sec.f_uint(FieldKind::Offset, "string_offset", word, n.str_off);
+    }
+    for n in &m.names {
+        sec.f_uint(FieldKind::Offset, "entry_offset", word, n.entry_off);
+    }
+    let base = sec.len();
+    sec.bytes(&abb.buf);
+    for f in &abb.fields {
+        let mut f = f.clone();
+        f.off += base;
+        sec.fields.push(f);
+    }
+    let base = sec.len();
+    sec.bytes(&pool_a.buf);
+    for f in &pool_a.fields {
+        let mut f = f.clone();
+        f.off += base;
+        sec.fields.push(f);
+    }
+    sec.end_length(lm);
+    m.length = (sec.len() - lm.body) as u64;
+    m
+}
+
+// ------------------------------------------------------------------ aranges
+
+pub fn gen_arange_set(r: &mut Rng, fmt64: bool, addr_size: u8) -> ArangeSetM {
+    let mask = addr_mask(addr_size);
+    let n = r.small(12) as usize;
+    let mut tuples = vec![];
+    for _ in 0..n {
+        let t = match r.below(12) {
+            0 => (0, 0),
+            1 => (mask, r.below(100)),                 // -1 tombstone
+            2 => (mask - 1, r.below(100)),             // -2 tombstone
+            3 => (mask - 2, r.below(3)),               // just below the tombstones; may overflow
+            4 => (r.boundary() & mask, r.boundary() & mask),
+            5 => (0, 1 + r.below(1000) & mask),        // address 0, non-zero length
+            6 => ((1 + r.below(1000)) & mask, 0),      // zero length
+            _ => {
+                let a = r.next() & (mask >> 1);
+                let l = r.next() & (mask >> 2);
+                (a, l.min(mask - a))
+            }
+        };
+        tuples.push(t);
+    }
+    // the terminating tuple (present in all real tables; sometimes omitted here)
+    if !r.chance(1, 6) {
+        tuples.push((0, 0));
+    }
+    let wmask = if fmt64 { u64::MAX } else { 0xffff_ffff };
+    ArangeSetM {
+        fmt64,
+        version: if r.chance(1, 5) { 3 } else { 2 },
+        offset: 0,
+        length: 0,
+        info_offset: r.boundary() & wmask,
+        addr_size,
+        tuples,
+    }
+}
+
+/// Append the set to the section; fills `offset` and `length` in the model.
+pub fn asm_arange_set(a: &mut Asm, s: &mut ArangeSetM, pad_fill: u8) {
+    s.offset = a.len() as u64;
+    let lm = a.begin_length(s.fmt64);
+    a.f_uint(FieldKind::Version, "version", 2, s.version as u64);
+    a.f_uint(FieldKind::Offset, "debug_info_offset", if s.fmt64 { 8 } else { 4 }, s.info_offset);
+    a.f_uint(FieldKind::Size, "address_size", 1, s.addr_size as u64);
+    a.f_uint(FieldKind::Size, "segment_size", 1, 0);
+    for _ in 0..s.padding() {
+        a.u8(pad_fill);
+    }
+    for (x, l) in &s.tuples {
+        a.f_uint(FieldKind::Address, "address", s.addr_size as usize, *x);
+        a.f_uint(FieldKind::Length, "length", s.addr_size as usize, *l);
+    }
+    a.end_length(lm);
+    s.length = (a.len() - lm.body) as u64;
+}
+
+// ------------------------------------------------------------------ pubnames / pubtypes
+
+pub fn gen_pub_set(r: &mut Rng, fmt64: bool) -> PubSetM {
+    let wmask = if fmt64 { u64::MAX } else { 0xffff_ffff };
+    let n = r.small(8) as usize;
+    let mut entries = vec![];
+    for _ in 0..n {
+        let mut d = r.boundary() & wmask;
+        if d == 0 {
+            d = 1 + r.below(1000);
+        }
+        let name = match r.below(5) {
+            0 => vec![],
+            _ => gen_name(r).into_bytes(),
+        };
+        entries.push((d, name));
+    }
+    PubSetM { fmt64, unit_offset: r.boundary() & wmask, unit_length: r.boundary() & wmask, entries }
+}
+
+/// `terminator`: emit the zero offset that ends the set; `junk`: bytes after the terminator
+/// that still belong to the set (ignored by readers).
+pub fn asm_pub_set(a: &mut Asm, s: &PubSetM, terminator: bool, junk: &[u8]) {
+    let word = if s.fmt64 { 8 } else { 4 };
+    let lm = a.begin_length(s.fmt64);
+    a.f_uint(FieldKind::Version, "version", 2, 2);
+    a.f_uint(FieldKind::Offset, "unit_offset", word, s.unit_offset);
+    a.f_uint(FieldKind::Length, "unit_length", word, s.unit_length);
+    for (d, n) in &s.entries {
+        a.f_uint(FieldKind::Offset, "die_offset", word, *d);
+        a.f_bytes(FieldKind::Str, "name", n);
+        a.u8(0);
+    }
+    if terminator {
+        a.f_uint(FieldKind::Offset, "terminator", word, 0);
+        a.bytes(junk);
+    }
+    a.end_length(lm);
+}
+
+// ------------------------------------------------------------------ str_offsets / addr
+
+/// A `.debug_str_offsets` section with several contributions (v5 headers or GNU bare).
+pub fn gen_str_offsets(r: &mut Rng, le: bool) -> (Asm, Vec<TableM>) {
+    let mut a = Asm::new(le);
+    let mut tables = vec![];
+    let n = 1 + r.usize(3);
+    for _ in 0..n {
+        let fmt64 = r.chance(1, 3);
+        let word = if fmt64 { 8 } else { 4 };
+        let count = r.small(20) as usize;
+        let header = r.chance(2, 3);
+        let junk = r.usize(3);
+        for _ in 0..junk {
+            a.u8(0xee);
+        }
+        let lm = if header { Some(a.begin_length(fmt64)) } else { None };
+        if header {
+            a.f_uint(FieldKind::Version, "version", 2, 5);
+            a.f_uint(FieldKind::Other, "padding", 2, 0);
+        }
+        let base = a.len() as u64;
+        let mut entries = vec![];
+        for _ in 0..count {
+            let v = r.boundary() & if fmt64 { u64::MAX } else { 0xffff_ffff };
+            a.f_uint(FieldKind::Offset, "str_offset", word, v);
+            entries.push(v);
+        }
+        if let Some(lm) = lm {
+            a.end_length(lm);
+        }
+        tables.push(TableM { base, entry_size: word as u8, fmt64, entries });
+    }
+    (a, tables)
+}
+
+/// A `.debug_addr` section with several tables.
+pub fn gen_addr(r: &mut Rng, le: bool) -> (Asm, Vec<TableM>) {
+    let mut a = Asm::new(le);
+    let mut tables = vec![];
+    let n = 1 + r.usize(3);
+    for _ in 0..n {
+        let fmt64 = r.chance(1, 3);
+        let size = *r.pick(&[1u8, 2, 4, 8]);
+        let count = r.small(20) as usize;
+        let header = r.chance(2, 3);
+        let lm = if header { Some(a.begin_length(fmt64)) } else { None };
+        if header {
+            a.f_uint(FieldKind::Version, "version", 2, 5);
+            a.f_uint(FieldKind::Size, "address_size", 1, size as u64);
+            a.f_uint(FieldKind::Size, "segment_selector_size", 1, 0);
+        }
+        let base = a.len() as u64;
+        let mut entries = vec![];
+        for _ in 0..count {
+            let v = r.boundary() & addr_mask(size);
+            a.f_uint(FieldKind::Address, "address", size as usize, v);
+            entries.push(v);
+        }
+        if let Some(lm) = lm {
+            a.end_length(lm);
+        }
+        tables.push(TableM { base, entry_size: size, fmt64, entries });
+    }
+    (a, tables)
+}
+
+// ------------------------------------------------------------------ split DWARF objects and packages
+
+/// What the generator knows about one DIE (only the facts the check compares).
+#[derive(Clone, Debug)]
+pub struct DieM {
+    pub depth: usize,
+    pub tag: u16,
+    /// resolved DW_AT_name, if the DIE has one
+    pub name: Option<Vec<u8>>,
+    /// resolved DW_AT_low_pc, if any
+    pub low_pc: Option<u64>,
+}
+
+#[derive(Clone, Debug)]
+pub struct UnitM {
+    /// dwo id (compile unit) or type signature (type unit)
+    pub id: u64,
+    pub is_type: bool,
+    pub dies: Vec<DieM>,
+}
+
+/// One standalone `.dwo` object: its sections (keyed by kind) + `.debug_str.dwo`.
+#[derive(Clone, Debug, Default)]
+pub struct DwoObject {
+    pub secs: BTreeMap<SectKind, Vec<u8>>,
+    pub str: Vec<u8>,
+    /// position of each unit inside its section: (kind of section, offset, size)
+    pub unit_pos: Vec<(SectKind, usize, usize)>,
+    pub units: Vec<UnitM>,
+}
+
+#[derive(Clone, Debug)]
+pub struct Package {
+    pub enc: Enc,
+    pub objects: Vec<DwoObject>,
+    pub secs: BTreeMap<SectKind, Vec<u8>>,
+    pub str: Vec<u8>,
+    pub cu_index: UnitIndexM,
+    pub tu_index: UnitIndexM,
+    /// parent (skeleton) file sections
+    pub parent_addr: Vec<u8>,
+    pub parent_addr_base: u64,
+    pub parent_ranges: Vec<u8>,
+    pub addresses: Vec<u64>,
+}
+
+const DW_TAG_COMPILE_UNIT: u16 = 0x11;
+const DW_TAG_TYPE_UNIT: u16 = 0x41;
+const DW_TAG_SUBPROGRAM: u16 = 0x2e;
+const DW_TAG_VARIABLE: u16 = 0x34;
+const DW_TAG_BASE_TYPE: u16 = 0x24;
+const DW_TAG_STRUCT: u16 = 0x13;
+
+const AT_NAME: u64 = 0x03;
+const AT_BYTE_SIZE: u64 = 0x0b;
+const AT_STMT_LIST: u64 = 0x10;
+const AT_LOW_PC: u64 = 0x11;
+const AT_HIGH_PC: u64 = 0x12;
+const AT_LANGUAGE: u64 = 0x13;
+const AT_CONST_VALUE: u64 = 0x1c;
+const AT_PRODUCER: u64 = 0x25;
+const AT_LOCATION: u64 = 0x02;
+const AT_TYPE: u64 = 0x49;
+const AT_RANGES: u64 = 0x55;
+const AT_GNU_DWO_ID: u64 = 0x2131;
+
+const F_DATA1: u64 = 0x0b;
+const F_DATA2: u64 = 0x05;
+const F_DATA4: u64 = 0x06;
+const F_DATA8: u64 = 0x07;
+const F_SDATA: u64 = 0x0d;
+const F_STRING: u64 = 0x08;
+const F_REF4: u64 = 0x13;
+const F_SEC_OFFSET: u64 = 0x17;
+const F_STRX: u64 = 0x1a;
+const F_ADDRX: u64 = 0x1b;
+const F_STRX1: u64 = 0x25;
+const F_LOCLISTX: u64 = 0x22;
+const F_RNGLISTX: u64 = 0x23;
+const F_GNU_ADDR_INDEX: u64 = 0x1f01;
+const F_GNU_STR_INDEX: u64 = 0x1f02;
+
+struct StrTab {
+    bytes: Vec<u8>,
+    offsets: Vec<u64>,
+    names: Vec<Vec<u8>>,
+}
+
+impl StrTab {
+    fn add(&mut self, s: &[u8]) -> u64 {
+        let idx = self.offsets.len() as u64;
+        self.offsets.push(self.bytes.len() as u64);
+        self.bytes.extend_from_slice(s);
+        self.bytes.push(0);
+        self.names.push(s.to_vec());
+        idx
+    }
+}
+
+fn abbrev_decl(a: &mut Asm, code: u64, tag: u16, children: bool, attrs: &[(u64, u64)]) {
+    a.uleb(code).uleb(tag as u64).u8(children as u8);
+    for (n, f) in attrs {
+        a.uleb(*n).uleb(*f);
+    }
+    a.u8(0).u8(0);
+}
+
+/// Generate one `.dwo` object with one compile unit and `n_tu` type units.
+/// `tag` makes names unique per object.  `n_addr` = number of entries in the parent's
+/// `.debug_addr`; `ranges_offsets` = valid list offsets in the parent's `.debug_ranges`.
+pub fn gen_dwo_object(r: &mut Rng, enc: Enc, tag: usize, cu_id: u64, tu_sigs: &[u64], addresses: &[u64], ranges_offsets: &[u64], with: &BTreeSet<SectKind>) -> DwoObject {
+    let le = enc.le;
+    let v5 = enc.version >= 5;
+    let word = enc.word() as usize;
+    let mut obj = DwoObject::default();
+    let mut st = StrTab { bytes: vec![], offsets: vec![], names: vec![] };
+    // a little junk at the start of the string section so that offset 0 is not a name
+    st.bytes.extend_from_slice(format!("pad{tag}").as_bytes());
+    st.bytes.push(0);
+
+    let strx_form = if v5 { if r.bool() { F_STRX1 } else { F_STRX } } else { F_GNU_STR_INDEX };
+    let addrx_form = if v5 { F_ADDRX } else { F_GNU_ADDR_INDEX };
+    let n_sub = 1 + r.usize(3);
+    let n_var = r.usize(3);
+    let has_lists_v5 = v5 && with.contains(&SectKind::RngLists);
+    let has_loc = if v5 { with.contains(&SectKind::LocLists) } else { with.contains(&SectKind::Loc) };
+    let has_line = with.contains(&SectKind::Line);
+    let use_ranges_v4 = !v5 && !ranges_offsets.is_empty();
+
+    // ---- abbreviations
+    let mut ab = Asm::new(le);
+    let mut cu_attrs = vec![(AT_PRODUCER, strx_form), (AT_LANGUAGE, F_DATA2), (AT_NAME, strx_form)];
+    if !v5 {
+        cu_attrs.push((AT_GNU_DWO_ID, F_DATA8));
+    }
+    if has_line {
+        cu_attrs.push((AT_STMT_LIST, F_SEC_OFFSET));
+    }
+    abbrev_decl(&mut ab, 1, DW_TAG_COMPILE_UNIT, true, &cu_attrs);
+    let mut sub_attrs = vec![(AT_NAME, strx_form), (AT_LOW_PC, addrx_form), (AT_HIGH_PC, F_DATA4)];
+    if has_lists_v5 {
+        sub_attrs.push((AT_RANGES, F_RNGLISTX));
+    } else if use_ranges_v4 {
+        sub_attrs.push((AT_RANGES, F_SEC_OFFSET));
+    }
+    if has_loc {
+        sub_attrs.push((AT_LOCATION, if v5 { F_LOCLISTX } else { F_SEC_OFFSET }));
+    }
+    abbrev_decl(&mut ab, 2, DW_TAG_SUBPROGRAM, false, &sub_attrs);
+    abbrev_decl(&mut ab, 3, DW_TAG_VARIABLE, false, &[(AT_NAME, F_STRING), (AT_TYPE, F_REF4), (AT_CONST_VALUE, F_SDATA)]);
+    abbrev_decl(&mut ab, 4, DW_TAG_BASE_TYPE, false, &[(AT_NAME, strx_form), (AT_BYTE_SIZE, F_DATA1)]);
+    let mut tu_attrs = vec![(AT_LANGUAGE, F_DATA2)];
+    if has_line {
+        tu_attrs.push((AT_STMT_LIST, F_SEC_OFFSET));
+    }
+    abbrev_decl(&mut ab, 5, DW_TAG_TYPE_UNIT, true, &tu_attrs);
+    abbrev_decl(&mut ab, 6, DW_TAG_STRUCT, false, &[(AT_NAME, strx_form), (AT_BYTE_SIZE, F_DATA1)]);
+    ab.u8(0);
+
+    let emit_strx = |a: &mut Asm, form: u64, idx: u64| {
+        if form == F_STRX1 {
+            a.u8(idx as u8);
+        } else {
+            a.uleb(idx);
+        }
+    };
+
+    // ---- lists (v5: rnglists/loclists with offset tables; v4: loc.dwo with GNU LLE)
+    let n_lists = n_sub;
+    let mut rng = Asm::new(le);
+    let mut locl = Asm::new(le);
+    let mut loc_offsets_v4: Vec<u64> = vec![];
+    let n_addr = addresses.len() as u64;
+    if has_lists_v5 {
+        let lm = rng.begin_length(enc.fmt64);
+        rng.u16(5).u8(enc.addr).u8(0).u32(n_lists as u32);
+        let table = rng.len();
+        for _ in 0..n_lists {
+            rng.word(enc.fmt64, 0);
+        }
+        for i in 0..n_lists {
+            let off = (rng.len() - table) as u64;
+            rng.patch_uint(table + i * word, word, off);
+            let k = 1 + r.usize(3);
+            for _ in 0..k {
+                match r.below(3) {
+                    0 if n_addr > 0 => {
+                        // DW_RLE_startx_length
+                        rng.u8(3).uleb(r.below(n_addr)).uleb(1 + r.below(100));
+                    }
+                    1 if n_addr > 0 => {
+                        // DW_RLE_base_addressx + DW_RLE_offset_pair
+                        rng.u8(1).uleb(r.below(n_addr));
+                        let b = r.below(50);
+                        rng.u8(4).uleb(b).uleb(b + 1 + r.below(50));
+                    }
+                    _ => {
+                        // DW_RLE_start_length
+                        rng.u8(7).uint(enc.addr as usize, (0x10 + r.below(0x40)) & enc.addr_mask()).uleb(1 + r.below(10));
+                    }
+                }
+            }
+            rng.u8(0);
+        }
+        rng.end_length(lm);
+    }
+    if has_loc && v5 {
+        let lm = locl.begin_length(enc.fmt64);
+        locl.u16(5).u8(enc.addr).u8(0).u32(n_lists as u32);
+        let table = locl.len();
+        for _ in 0..n_lists {
+            locl.word(enc.fmt64, 0);
+        }
+        for i in 0..n_lists {
+            let off = (locl.len() - table) as u64;
+            locl.patch_uint(table + i * word, word, off);
+            let k = 1 + r.usize(3);
+            for _ in 0..k {
+                match r.below(3) {
+                    0 if n_addr > 0 => {
+                        // DW_LLE_startx_length idx len, block
+                        locl.u8(3).uleb(r.below(n_addr)).uleb(1 + r.below(100));
+                    }
+                    1 if n_addr > 0 => {
+                        locl.u8(1).uleb(r.below(n_addr));
+                        let b = r.below(50);
+                        locl.u8(4).uleb(b).uleb(b + 1 + r.below(50));
+                    }
+                    _ => {
+                        // DW_LLE_start_length
+                        locl.u8(8).uint(enc.addr as usize, (0x10 + r.below(0x40)) & enc.addr_mask()).uleb(1 + r.below(10));
+                    }
+                }
+                // expression: DW_OP_regN or DW_OP_lit N; DW_OP_stack_value
+                if r.bool() {
+                    locl.uleb(1).u8(0x50 + r.below(32) as u8);
+                } else {
+                    locl.uleb(2).u8(0x30 + r.below(32) as u8).u8(0x9f);
+                }
+            }
+            locl.u8(0);
+        }
+        locl.end_length(lm);
+    }
+    if has_loc && !v5 {
+        // .debug_loc.dwo, GNU split-dwarf entries
+        locl.bytes(format!("L{tag}").as_bytes());
+        for _ in 0..n_lists {
+            loc_offsets_v4.push(locl.len() as u64);
+            let k = 1 + r.usize(3);
+            for _ in 0..k {
+                if n_addr > 0 {
+                    // DW_LLE_GNU_start_length_entry: index, 4-byte length, 2-byte block length
+                    locl.u8(3).uleb(r.below(n_addr)).u32(1 + r.below(100) as u32);
+                    locl.u16(1).u8(0x50 + r.below(32) as u8);
+                }
+            }
+            locl.u8(0);
+        }
+    }
+
+    // ---- line table (header only, empty program)
+    let mut line = Asm::new(le);
+    if has_line {
+        let lm = line.begin_length(enc.fmt64);
+        line.u16(if v5 { 5 } else { 4 });
+        if v5 {
+            line.u8(enc.addr).u8(0);
+        }
+        let hl = line.len();
+        line.word(enc.fmt64, 0);
+        let hstart = line.len();
+        line.u8(1).u8(1).u8(1).u8((-5i8) as u8).u8(14).u8(13);
+        line.bytes(&[0, 1, 1, 1, 1, 0, 0, 0, 1, 0, 0, 1]);
+        if v5 {
+            line.u8(1).uleb(1).uleb(F_STRING);
+            line.uleb(1).cstr(format!("dir{tag}").as_bytes());
+            line.u8(1).uleb(1).uleb(F_STRING);
+            line.uleb(1).cstr(format!("file{tag}.c").as_bytes());
+        } else {
+            line.cstr(format!("dir{tag}").as_bytes()).u8(0);
+            line.cstr(format!("file{tag}.c").as_bytes()).uleb(1).uleb(0).uleb(0).u8(0);
+        }
+        let hlen = (line.len() - hstart) as u64;
+        line.patch_uint(hl, word, hlen);
+        line.end_length(lm);
+    }
+
+    // ---- macro sections (raw contributions, read at offset 0)
+    if with.contains(&SectKind::Macinfo) && !v5 {
+        let mut m = Asm::new(le);
+        m.u8(1).uleb(1 + tag as u64).cstr(format!("M{tag} 1").as_bytes());
+        m.u8(2).uleb(7).cstr(b"U");
+        m.u8(0);
+        obj.secs.insert(SectKind::Macinfo, m.buf);
+    }
+    if with.contains(&SectKind::Macro) {
+        let mut m = Asm::new(le);
+        m.u16(if v5 { 5 } else { 4 }).u8(if enc.fmt64 { 1 } else { 0 });
+        m.u8(1).uleb(2 + tag as u64).cstr(format!("MACRO{tag} 42").as_bytes());
+        m.u8(2).uleb(9).cstr(b"V");
+        m.u8(0);
+        obj.secs.insert(SectKind::Macro, m.buf);
+    }
+
+    // ---- units
+    let producer = st.add(format!("gv producer {tag}").as_bytes());
+    let cu_name = st.add(format!("unit{tag}.c").as_bytes());
+    let base_name = st.add(b"int");
+    let mut info = Asm::new(le);
+    let mut types = Asm::new(le);
+
+    // type units first or last in .debug_info (v5) / in .debug_types (v4)
+    let tus_first = r.bool();
+    let mut emit_tu = |info: &mut Asm, types: &mut Asm, st: &mut StrTab, obj: &mut DwoObject, sig: u64, k: usize| {
+        let (a, kind): (&mut Asm, SectKind) = if v5 { (info, SectKind::Info) } else { (types, SectKind::Types) };
+        let start = a.len();
+        let lm = a.begin_length(enc.fmt64);
+        let body0 = lm.off;
+        a.u16(enc.version);
+        if v5 {
+            a.u8(0x06).u8(enc.addr).word(enc.fmt64, 0);
+        } else {
+            a.word(enc.fmt64, 0).u8(enc.addr);
+        }
+        a.u64(sig);
+        let type_off_pos = a.len();
+        a.word(enc.fmt64, 0);
+        // root DIE
+        a.uleb(5).u16(0x0c);
+        if has_line {
+            a.word(enc.fmt64, 0);
+        }
+        let sname = format!("S{tag}_{k}");
+        let sidx = st.add(sname.as_bytes());
+        let die_off = (a.len() - body0) as u64;
+        a.patch_uint(type_off_pos, word, die_off);
+        a.uleb(6);
+        if strx_form == F_STRX1 {
+            a.u8(sidx as u8);
+        } else {
+            a.uleb(sidx);
+        }
+        a.u8(8 + k as u8);
+        a.u8(0);
+        a.end_length(lm);
+        obj.unit_pos.push((kind, start, a.len() - start));
+        obj.units.push(UnitM {
+            id: sig,
+            is_type: true,
+            dies: vec![
+                DieM { depth: 0, tag: DW_TAG_TYPE_UNIT, name: None, low_pc: None },
+                DieM { depth: 1, tag: DW_TAG_STRUCT, name: Some(sname.into_bytes()), low_pc: None },
+            ],
+        });
+    };
+    if tus_first {
+        for (k, sig) in tu_sigs.iter().enumerate() {
+            emit_tu(&mut info, &mut types, &mut st, &mut obj, *sig, k);
+        }
+    }
+    {
+        let a = &mut info;
+        let start = a.len();
+        let lm = a.begin_length(enc.fmt64);
+        let body0 = lm.off;
+        a.u16(enc.version);
+        if v5 {
+            a.u8(0x05).u8(enc.addr).word(enc.fmt64, 0).u64(cu_id);
+        } else {
+            a.word(enc.fmt64, 0).u8(enc.addr);
+        }
+        let mut dies = vec![];
+        // CU DIE
+        a.uleb(1);
+        emit_strx(a, strx_form, producer);
+        a.u16(0x0c);
+        emit_strx(a, strx_form, cu_name);
+        if !v5 {
+            a.u64(cu_id);
+        }
+        if has_line {
+            a.word(enc.fmt64, 0);
+        }
+        dies.push(DieM { depth: 0, tag: DW_TAG_COMPILE_UNIT, name: Some(st.names[cu_name as usize].clone()), low_pc: None });
+        // base type
+        let base_off = (a.len() - body0) as u64;
+        a.uleb(4);
+        emit_strx(a, strx_form, base_name);
+        a.u8(4);
+        dies.push(DieM { depth: 1, tag: DW_TAG_BASE_TYPE, name: Some(b"int".to_vec()), low_pc: None });
+        for i in 0..n_sub {
+            let fname = format!("fn{tag}_{i}");
+            let fidx = st.add(fname.as_bytes());
+            a.uleb(2);
+            emit_strx(a, strx_form, fidx);
+            let ai = if n_addr > 0 { r.below(n_addr) } else { 0 };
+            a.uleb(ai);
+            a.u32(1 + r.below(1000) as u32);
+            if has_lists_v5 {
+                a.uleb(i as u64);
+            } else if use_ranges_v4 {
+                a.word(enc.fmt64, *r.pick(ranges_offsets));
+            }
+            if has_loc {
+                if v5 {
+                    a.uleb(i as u64);
+                } else {
+                    a.word(enc.fmt64, loc_offsets_v4[i]);
+                }
+            }
+            dies.push(DieM { depth: 1, tag: DW_TAG_SUBPROGRAM, name: Some(fname.into_bytes()), low_pc: addresses.get(ai as usize).copied() });
+        }
+        for i in 0..n_var {
+            let vname = format!("var{tag}_{i}");
+            a.uleb(3).cstr(vname.as_bytes()).u32(base_off as u32).sleb(r.boundary() as i64);
+            dies.push(DieM { depth: 1, tag: DW_TAG_VARIABLE, name: Some(vname.into_bytes()), low_pc: None });
+        }
+        a.u8(0);
+        a.end_length(lm);
+        obj.unit_pos.push((SectKind::Info, start, a.len() - start));
+        obj.units.push(UnitM { id: cu_id, is_type: false, dies });
+    }
+    if !tus_first {
+        for (k, sig) in tu_sigs.iter().enumerate() {
+            emit_tu(&mut info, &mut types, &mut st, &mut obj, *sig, k);
+        }
+    }
+
+    // ---- string offsets
+    let mut so = Asm::new(le);
+    if v5 {
+        let lm = so.begin_length(enc.fmt64);
+        so.u16(5).u16(0);
+        for o in &st.offsets {
+            so.word(enc.fmt64, *o);
+        }
+        so.end_length(lm);
+    } else {
+        for o in &st.offsets {
+            so.word(enc.fmt64, *o);
+        }
+    }
+
+    obj.secs.insert(SectKind::Info, info.buf);
+    if !types.buf.is_empty() {
+        obj.secs.insert(SectKind::Types, types.buf);
+    }
+    obj.secs.insert(SectKind::Abbrev, ab.buf);
+    obj.secs.insert(SectKind::StrOffsets, so.buf);
+    if has_line {
+        obj.secs.insert(SectKind::Line, line.buf);
+    }
+    if has_lists_v5 {
+        obj.secs.insert(SectKind::RngLists, rng.buf);
+    }
+    if has_loc {
+        obj.secs.insert(if v5 { SectKind::LocLists } else { SectKind::Loc }, locl.buf);
+    }
+    obj.str = st.bytes;
+    obj
+}
+
+/// Rewrite the entries of a string-offsets contribution by adding `delta`.
+fn rebase_str_offsets(bytes: &mut [u8], enc: Enc, delta: u64) {
+    let word = enc.word() as usize;
+    let start = if enc.version >= 5 { if enc.fmt64 { 16 } else { 8 } } else { 0 };
+    let mut p = start;
+    while p + word <= bytes.len() {
+        let v = crate::asm::get_uint(&bytes[p..], enc.le, word).wrapping_add(delta);
+        let b = v.to_le_bytes();
+        for i in 0..word {
+            bytes[p + i] = if enc.le { b[i] } else { b[word - 1 - i] };
+        }
+        p += word;
+    }
+}
+
+/// Build `n_obj` objects and package them (what `dwp` does): concatenate the contributions
+/// with random gaps, merge the string sections, write both indexes.
+pub fn gen_package(r: &mut Rng, enc: Enc, n_obj: usize) -> Package {
+    let v5 = enc.version >= 5;
+    let iv: u16 = if v5 { 5 } else { 2 };
+    // parent file: .debug_addr (+ .debug_ranges for v4)
+    let n_addr = 1 + r.usize(12);
+    let addresses: Vec<u64> = (0..n_addr).map(|_| (0x1000 + r.below(0x10_0000)) & enc.addr_mask() & !0x80).collect();
+    let mut pa = Asm::new(enc.le);
+    let parent_addr_base;
+    if v5 {
+        let lm = pa.begin_length(enc.fmt64);
+        pa.u16(5).u8(enc.addr).u8(0);
+        parent_addr_base = pa.len() as u64;
+        for x in &addresses {
+            pa.uint(enc.addr as usize, *x);
+        }
+        pa.end_length(lm);
+    } else {
+        parent_addr_base = 0;
+        for x in &addresses {
+            pa.uint(enc.addr as usize, *x);
+        }
+    }
+    let mut pr = Asm::new(enc.le);
+    let mut ranges_offsets = vec![];
+    if !v5 {
+        pr.bytes(&[0xff; 3]);
+        for _ in 0..3 {
+            // lists are placed at any offset
+            ranges_offsets.push(pr.len() as u64);
+            for _ in 0..1 + r.usize(3) {
+                let b = (1 + r.below(60)) & enc.addr_mask();
+                pr.uint(enc.addr as usize, b).uint(enc.addr as usize, (b + 1 + r.below(60)) & enc.addr_mask());
+            }
+            pr.uint(enc.addr as usize, 0).uint(enc.addr as usize, 0);
+        }
+    }
+    // which optional sections do the objects carry
+    let mut with: BTreeSet<SectKind> = BTreeSet::new();
+    for k in SectKind::all_for(iv) {
+        if matches!(k, SectKind::Info | SectKind::Types | SectKind::Abbrev | SectKind::StrOffsets) || r.chance(3, 4) {
+            with.insert(k);
+        }
+    }
+    // ids: distinct, non-zero; sometimes colliding in the hash table
+    let mut objects = vec![];
+    let collide = r.chance(1, 3);
+    let mut used: BTreeSet<u64> = BTreeSet::new();
+    let mut fresh = |r: &mut Rng, used: &mut BTreeSet<u64>| loop {
+        let k = if collide { (r.next() & !0xff_0000_00ffu64) | 0x05 } else { r.next() };
+        if k != 0 && used.insert(k) {
+            return k;
+        }
+    };
+    for t in 0..n_obj {
+        let cu_id = fresh(r, &mut used);
+        let n_tu = r.usize(3);
+        let sigs: Vec<u64> = (0..n_tu).map(|_| fresh(r, &mut used)).collect();
+        objects.push(gen_dwo_object(r, enc, t, cu_id, &sigs, &addresses, &ranges_offsets, &with));
+    }
+    // ---- package sections
+    let kinds: Vec<SectKind> = SectKind::all_for(iv).into_iter().filter(|k| objects.iter().any(|o| o.secs.contains_key(k))).collect();
+    let mut secs: BTreeMap<SectKind, Vec<u8>> = BTreeMap::new();
+    let mut pstr: Vec<u8> = vec![];
+    // cu columns: every kind except Types; tu columns: Info(v5)/Types(v2), Abbrev, Line, StrOffsets
+    let mut cu_cols: Vec<SectKind> = kinds.iter().copied().filter(|k| *k != SectKind::Types).collect();
+    let mut tu_cols: Vec<SectKind> = kinds
+        .iter()
+        .copied()
+        .filter(|k| matches!(k, SectKind::Abbrev | SectKind::Line | SectKind::StrOffsets) || *k == if v5 { SectKind::Info } else { SectKind::Types })
+        .collect();
+    r.shuffle(&mut cu_cols);
+    r.shuffle(&mut tu_cols);
+    let n_cu = objects.len();
+    let n_tu: usize = objects.iter().map(|o| o.units.iter().filter(|u| u.is_type).count()).sum();
+    let slots_for = |n: usize, r: &mut Rng| {
+        let mut s = 1usize;
+        while s <= n {
+            s *= 2;
+        }
+        if r.chance(1, 3) {
+            s *= 2;
+        }
+        s
+    };
+    let mut cu_index = UnitIndexM::new(iv, cu_cols.clone(), slots_for(n_cu, r));
+    let mut tu_index = UnitIndexM::new(iv, tu_cols.clone(), if n_tu == 0 && r.bool() { 0 } else { slots_for(n_tu, r) });
+    let mut order: Vec<usize> = (0..n_obj).collect();
+    r.shuffle(&mut order);
+    for &oi in &order {
+        let obj = &objects[oi];
+        // whole-section contributions of this object
+        let mut contrib: BTreeMap<SectKind, (u32, u32)> = BTreeMap::new();
+        let str_base = pstr.len() as u64;
+        pstr.extend_from_slice(&obj.str);
+        for (k, bytes) in &obj.secs {
+            let dst = secs.entry(*k).or_default();
+            let gap = r.usize(4);
+            for _ in 0..gap {
+                dst.push(0xcc);
+            }
+            let off = dst.len();
+            let mut b = bytes.clone();
+            if *k == SectKind::StrOffsets {
+                rebase_str_offsets(&mut b, enc, str_base);
+            }
+            dst.extend_from_slice(&b);
+            contrib.insert(*k, (off as u32, bytes.len() as u32));
+        }
+        for (ui, u) in obj.units.iter().enumerate() {
+            let (ukind, uoff, usize_) = obj.unit_pos[ui];
+            let cols = if u.is_type { &tu_cols } else { &cu_cols };
+            let mut row = vec![];
+            for c in cols {
+                if *c == ukind {
+                    let base = contrib[&ukind].0;
+                    row.push((base + uoff as u32, usize_ as u32));
+                } else if let Some(x) = contrib.get(c) {
+                    // a type unit uses the object's abbrev / line / str_offsets contributions
+                    row.push(*x);
+                } else {
+                    row.push((0, 0));
+                }
+            }
+            let idx = if u.is_type { &mut tu_index } else { &mut cu_index };
+            idx.rows.push(row);
+            let rown = idx.rows.len() as u32;
+            idx.insert(u.id, rown);
+        }
+    }
+    Package {
+        enc,
+        objects,
+        secs,
+        str: pstr,
+        cu_index,
+        tu_index,
+        parent_addr: pa.buf,
+        parent_addr_base,
+        parent_ranges: pr.buf,
+        addresses,
+    }
+}
